@@ -74,6 +74,8 @@ func c12Regexp(r *rand.Rand) string {
 		// pieces that begin, end or lie across line breaks (where go/scanner strips carriage returns) and kept `*\r/`
 		`(?P<a>W)\s+(?P<b>V)`, `(?P<a>\s+)W`, `W(?P<a>\s+)(?P<b>\S*)`, `(?s)(?P<a>W.+)`, `(?P<a>[^\n]*)\n(?P<b>[^\n]*)`, `\n(?P<a>[^\n]*)`,
 		`(?m)W(?P<a>.*)(?P<b>$)`, `(?m)(?P<a>^)(?P<b>.?)`, `(?P<a>\*)(?P<b>\r?)/`, `(?P<a>\r)`, `(?s)(?P<a>\n.*\n)`, `(?P<a>\S+)(?P<b>\s*)$`, `\n`, `(?s)W.*V`,
+		// every group under a counted repetition
+		"(?P<a>W){1,2}", `(?:(?P<a>W)\W*){1,2}`, "(?P<a>.){3}", `W(?P<a>\W){0,2}`, "((?P<a>W)|(?P<b>V)){1,3}", `(?P<a>\w){2,}`, "(W){1}(?:V)?",
 		// group-less patterns whose match depends on where in the comment text the piece lies (the dedicated
 		// stream is c12AssertSets; these mix such rules with the rules above)
 		`^//W$`, `^// ?W`, `W$`, `\bW\b`, `\A/\* ?W ?\*/\z`, `(?m)^W$`, `^W|V$`, `\BW`, `W\s*\*/$`, `(?m)^//W|V$`,
